@@ -16,7 +16,7 @@ import ast
 from ..model import AnalysisError, unparse
 from ..report import RuleResult
 from ..roles import const_values
-from ._c12_flow import Flow, call_name, parents
+from ._c12_flow import Flow, call_name, instance_facts, parents
 
 # methods / functions whose result may be the very object they are applied to (a view, or the operand itself)
 ALIASING_METHODS = {"astype", "reshape", "ravel", "view", "squeeze", "transpose", "swapaxes", "get", "setdefault", "__getitem__", "items", "values", "keys"}
@@ -215,4 +215,115 @@ def rule_pgroup(ctx, _flow) -> RuleResult:
             res.find("Workspace", "copy_property_groups", f"the {a} of the source property group is not carried over", cpg.where,
                      f"PropertyGroup persists {', '.join(attrs)}; the copy is created without reading the source group's {a}, so it gets the constructor's "
                      f"default: the property groups of the copy are not equal to those of the source")
+    return res
+
+
+# ---------------------------------------------------------------------------------------------- nested metadata entries
+META = ("metadata", "_metadata")
+IMMUTABLE = {"str", "int", "float", "bool", "bytes", "complex", "UUID", "None", "NoneType", "type", "Number", "Real", "Integral", "Enum",
+             "integer", "floating", "number", "bool_", "str_", "bytes_", "generic", "datetime", "date"}
+
+
+def _entry_steps(chain) -> bool:
+    """the provenance chain goes through the source's .metadata: the dict itself, or an entry taken out of it (subscript / get / items /
+    values / loop variable) — either way the receiver gets objects that the source keeps holding"""
+    return any(isinstance(x, ast.Attribute) and x.attr in META for x in chain)
+
+
+def rule_nested(ctx, _flow) -> RuleResult:
+    res = RuleResult(
+        "C12.NESTED",
+        "C12",
+        "in the copy methods, a value taken out of the SOURCE's metadata (an entry, a value of .items() / .values() / .get(..)) reaches the "
+        "metadata of ANOTHER entity (a <x>.*metadata*(..) call, <x>.metadata = .., an entry store below <x>.metadata) only through a "
+        "copying call (deepcopy ...) or under an isinstance guard admitting immutable scalars only — nested dicts / lists of the "
+        "metadata are not shared between copy and source",
+        floor=1,
+    )
+    for fn, roots in copy_functions(ctx):
+        v, fl = _flow(ctx, fn)
+        par = parents(v.node)
+
+        def owner_of_metadata(e, fl=fl):
+            """the expression <x> when e is <x>.metadata or something below it"""
+            for o in fl.origins_at(e):
+                while True:
+                    if isinstance(o, ast.Subscript):
+                        o = o.value
+                    elif isinstance(o, ast.Call) and isinstance(o.func, ast.Attribute) and o.func.attr in ("get", "setdefault", "__getitem__"):
+                        o = o.func.value
+                    else:
+                        break
+                if isinstance(o, ast.Attribute) and o.attr in META:
+                    return o.value
+            return None
+
+        sinks = []  # (owner expr, [value exprs], node, text)
+        for n in ast.walk(v.node):
+            if isinstance(n, ast.Call) and isinstance(n.func, ast.Attribute):
+                if "metadata" in n.func.attr.lower() and (n.args or n.keywords):
+                    sinks.append((n.func.value, list(n.args) + [k.value for k in n.keywords], n, f".{n.func.attr}(..)"))
+                elif n.func.attr in ("update", "setdefault", "__setitem__") and (n.args or n.keywords):
+                    own = owner_of_metadata(n.func.value)
+                    if own is not None:
+                        sinks.append((own, list(n.args) + [k.value for k in n.keywords], n, f".metadata ... .{n.func.attr}(..)"))
+            elif isinstance(n, (ast.Assign, ast.AnnAssign, ast.AugAssign)) and n.value is not None:
+                for t in (n.targets if isinstance(n, ast.Assign) else [n.target]):
+                    if isinstance(t, ast.Attribute) and t.attr in META:
+                        sinks.append((t.value, [n.value], n, f".{t.attr} = .."))
+                    elif isinstance(t, ast.Subscript):
+                        own = owner_of_metadata(t.value)
+                        if own is not None:
+                            sinks.append((own, [n.value], n, ".metadata[..] = .."))
+
+        def carried(e, fl=fl, _depth=0):
+            """the values an expression hands over: the elements of container displays, else the value itself"""
+            out = []
+            for o in fl.origins_at(e):
+                if _depth > 6:
+                    out.append(o)
+                elif isinstance(o, ast.Dict):
+                    for val in o.values:
+                        out += carried(val, fl, _depth + 1)
+                elif isinstance(o, (ast.List, ast.Tuple, ast.Set)):
+                    for val in o.elts:
+                        out += carried(val, fl, _depth + 1)
+                elif isinstance(o, ast.Starred):
+                    out += carried(o.value, fl, _depth + 1)
+                elif isinstance(o, ast.Call) and isinstance(o.func, ast.Name) and o.func.id == "dict":
+                    for val in list(o.args) + [k.value for k in o.keywords]:
+                        out += carried(val, fl, _depth + 1)  # dict(m) / dict(k=v): a new mapping holding the same values
+                else:
+                    out.append(o)
+            return out
+
+        def ident(o):
+            return ("name", o.id) if isinstance(o, ast.Name) else id(o)
+
+        for owner, values, node, text in sinks:
+            if from_source(fl, owner, roots) is not None:
+                continue  # the source's own metadata: not this clause
+            st = node
+            while st is not None and not isinstance(st, ast.stmt):
+                st = par.get(st)
+            shared = None
+            for val in values:
+                for leaf in carried(val):
+                    chain = from_source(fl, leaf, roots)
+                    if not chain or not _entry_steps(chain):
+                        continue
+                    me = {ident(o) for o in fl.origins_at(leaf)} | {ident(leaf)}
+                    nm = leaf.id if isinstance(leaf, ast.Name) else None
+                    facts = instance_facts(par, st, v.node, lambda e, me=me: bool({ident(o) for o in fl.origins_at(e)} & me), strict=False,
+                                           rebinds=lambda x, nm=nm: nm is not None and isinstance(x, ast.Assign) and all(isinstance(t, ast.Name) and t.id == nm for t in x.targets)) or []
+                    if any(kind == "type" and names and names <= IMMUTABLE for kind, names in facts):
+                        continue
+                    shared = shared or (leaf, chain)
+            ok = shared is None
+            res.inst(f"{fn.qualname}:{node.lineno} <other entity>{text}: entries of the source's metadata handed over by reference: {not ok}", nontrivial=True, ok=ok)
+            if not ok:
+                res.find(fn.cls.name, fn.name, f"entries of the source's metadata reach <other entity>{text} without a copy", f"{fn.module.relpath}:{node.lineno}",
+                         "the value comes out of the source's metadata and is stored in the other entity's metadata as the same object (no deepcopy on the "
+                         "way, no guard restricting it to immutable scalars): nested dicts / lists (e.g. the waveform of an EM survey) are shared, and "
+                         "an edit of the copy (a setter editing the entry in place) shows in the source")
     return res
